@@ -349,13 +349,48 @@ def read_sources(data: bytes, limit: int):
     yield "custom-buffered", faultio.PlainBuffered(faultio.StallRaw(data, limit, chunk=5))
 
 
+def consume_grouped_meta(api: str, src):
+    """Grouped parser with a frame_metadata variable supplied; statements sink by sink."""
+    import contextvars  # noqa: PLC0415
+
+    from mc import drivers as DR  # noqa: PLC0415
+
+    var: contextvars.ContextVar = contextvars.ContextVar("frame_metadata")
+    out: list = []
+    try:
+        if api == "generic":
+            from pyjelly.integrations.generic import parse as gp  # noqa: PLC0415
+
+            for sink in gp.parse_jelly_grouped(src, frame_metadata=var):
+                out += [("ns", p, T.from_generic(i)) for p, i in sink.namespaces]
+                out += [("st", T.norm_st(T.st_from_generic(s))) for s in sink]
+        else:
+            from pyjelly.integrations.rdflib import parse as rp  # noqa: PLC0415
+
+            for g in rp.parse_jelly_grouped(src, frame_metadata=var):
+                out += DR._graph_events(g)
+    except Exception as e:  # noqa: BLE001
+        return out, type(e).__name__
+    return out, None
+
+
 def run_read_case(case: dict) -> str | None:
     entry = next(e for e in corpus.base_streams(case["corpus"]) if e["name"] == case["stream"])
     j = case["frames_delivered"]
     limit = entry["offsets"][j - 1][1]
     src = dict(read_sources(entry["data"], limit))[case["source"]]
-    got, exc = consume_flat(case["api"], src)
     want = [e for evs in entry["per_frame"][:j] for e in evs]
+    if case.get("reader") == "grouped-meta":
+        got, exc = consume_grouped_meta(case["api"], src)
+        gs = [e for e in got if e[0] == "st"]
+        ws = [e for e in want if e[0] == "st"]
+        missing = [e for e in ws if e not in gs]
+        if missing:
+            return (f"after frames 1..{j} ({limit} bytes) had arrived the grouped parser (with a "
+                    f"frame_metadata variable) had yielded {len(gs)} of their {len(ws)} statements "
+                    f"before asking for more input ({exc})")
+        return None
+    got, exc = consume_flat(case["api"], src)
     if got[: len(want)] != want:
         return (f"after frames 1..{j} ({limit} bytes) had arrived only {len(got)} of their "
                 f"{len(want)} items were yielded before the parser asked for more input "
@@ -372,15 +407,18 @@ def read_shard(job) -> dict:
             if api == "rdflib" and not entry["rdf11"]:
                 continue
             for sname, _ in read_sources(b"", 0):
-                case = {"side": "read", "corpus": size, "stream": entry["name"],
-                        "frames_delivered": j, "source": sname, "api": api}
-                acc.evals += 1
-                if j < len(entry["offsets"]):
-                    acc.nontrivial += 1
-                r = run_read_case(case)
-                if r:
-                    acc.violation({"side": "read", "source": sname.split("-")[0]},
-                                  f"{entry['name']} via {sname} ({api}): {r}", case)
+                for reader in ("flat", "grouped-meta") if sname in ("raw", "raw-chunk5",
+                                                                     "buffered") else ("flat",):
+                    case = {"side": "read", "corpus": size, "stream": entry["name"],
+                            "frames_delivered": j, "source": sname, "api": api, "reader": reader}
+                    acc.evals += 1
+                    if j < len(entry["offsets"]):
+                        acc.nontrivial += 1
+                    r = run_read_case(case)
+                    if r:
+                        acc.violation({"side": "read", "source": sname.split("-")[0],
+                                       "reader": reader},
+                                      f"{entry['name']} via {sname} ({api}): {r}", case)
     acc.sample({"side": "read", "stream": entry["name"], "frames": len(entry["offsets"])}, cap=1)
     return acc.out()
 
